@@ -2,7 +2,8 @@
 from ..oracle import cpu6502
 
 ZP = [0x80, 0x81, 0x82, 0x83]
-ABS = [0x0400, 0x0401, 0x0402]
+ABS = [0x0400, 0x0401, 0x0402, 0xFFFE, 0xFFFF]
+SNAP = ZP + ABS + [0x84, 0x0403, 0x0000]      # addresses whose contents the assertion conditions may look at
 
 
 def gen_ops(rng, n, avoid_x=False, avoid_y=False):
@@ -110,7 +111,7 @@ def observe_slots(body):
 
     def on_assert(m, slot):
         visits.setdefault(slot, []).append({"a": m.a, "x": m.x, "y": m.y, "z": m.z, "c": m.c, "n": m.n, "v": m.v,
-                                            "mem": {a: m.rd(a) for a in ZP + ABS}})
+                                            "mem": {a: m.rd(a) for a in SNAP}})
         return True
     m = cpu6502.Machine(body, on_assert)
     end = m.run()
@@ -126,7 +127,7 @@ def truth(cond, st):
         v = st["mem"][cond[1]]
         return {"==": v == cond[3], "!=": v != cond[3]}[cond[2]]
     if k == "ram16":
-        v = st["mem"][cond[1]] + 256 * st["mem"][cond[1] + 1]
+        v = st["mem"][cond[1]] + 256 * st["mem"][(cond[1] + 1) & 0xFFFF]      # the word at $ffff continues at $0000
         return {"==": v == cond[3], "!=": v != cond[3]}[cond[2]]
     if k == "flag":
         v = st[cond[1]]
@@ -184,8 +185,8 @@ def atom(rng, st, want):
         v = st["mem"][a]
         return ("ram", a, "==" if want else "!=", v)
     if r < 0.75:
-        a = rng.choice([0x80, 0x82, 0x0400])
-        v = st["mem"][a] + 256 * st["mem"][a + 1]
+        a = rng.choice([0x80, 0x82, 0x0400, 0xFFFE, 0xFFFF])
+        v = st["mem"][a] + 256 * st["mem"][(a + 1) & 0xFFFF]
         return ("ram16", a, "==" if want else "!=", v)
     f = rng.choice(["z", "c", "n", "v"])
     return ("flag", f, st[f] == want)
@@ -230,7 +231,7 @@ def expected_outcome(body, conds):
     state = {}
 
     def on_assert(m, slot):
-        st = {"a": m.a, "x": m.x, "y": m.y, "z": m.z, "c": m.c, "n": m.n, "v": m.v, "mem": {a: m.rd(a) for a in ZP + ABS + [0x84, 0x0403]}}
+        st = {"a": m.a, "x": m.x, "y": m.y, "z": m.z, "c": m.c, "n": m.n, "v": m.v, "mem": {a: m.rd(a) for a in SNAP}}
         state["visits"] = state.get("visits", 0) + 1
         state.setdefault("per_slot", {}).setdefault(slot, 0)
         state["per_slot"][slot] += 1
